@@ -41,18 +41,28 @@ RRaw      == l > 0 => R.raw_ok
 RMidOK    == (l > 0 /\ R.k = "dur") =>
    LET ss == Sort(R.s) IN ss[f + 1] <= R.mid /\ R.mid <= ss[n - f]
 \* measurement variant: the combined timestamp lies between the timestamps of
-\* the two selected measurements (positions f+1 and n-f of the slice as the
-\* function left it, which must be sorted by offset), error is nil
+\* the two selected measurements, error is nil.  "Selected" = two distinct
+\* inputs (one input if both ranks coincide) whose offsets are the values of
+\* rank lo and hi; with equal offsets several inputs qualify and the statement
+\* does not say which one is taken, nor that the slice is left sorted (a
+\* property-preserving re-implementation by partial selection was alarmed on
+\* when the positions of the sorted slice were used), so the clause is
+\* existential over the qualifying inputs.
 Between2(x, a, b) == (2 * a <= x /\ x <= 2 * b) \/ (2 * b <= x /\ x <= 2 * a)
+SelectedBetween(x2, lo, hi) ==
+   LET ss == Sort(R.s) IN
+   \E i, j \in 1 .. n : /\ (lo = hi) = (i = j)
+                        /\ R.s[i] = ss[lo] /\ R.s[j] = ss[hi]
+                        /\ Between2(x2, R.ts[i], R.ts[j])
 RTsBetween == (l > 0 /\ R.k = "meas") =>
-   /\ SortedByOff(R.postf) /\ SortedByOff(R.postm)
-   /\ Between2(R.ftmts2, R.postft[f + 1], R.postft[n - f])
-   /\ (IF n % 2 # 0 THEN R.medts2 = 2 * R.postmt[n \div 2 + 1]
-       ELSE Between2(R.medts2, R.postmt[n \div 2], R.postmt[n \div 2 + 1]))
+   /\ SelectedBetween(R.ftmts2, f + 1, n - f)
+   /\ SelectedBetween(R.medts2, (n + 1) \div 2, n \div 2 + 1)
 RErrNil   == (l > 0 /\ R.k = "meas") => R.errnil
 
 \* -------------------------------------------------------------- strict
 SEqualsSpec == l > 0 => (R.ftm = FTM(R.s) /\ R.med = Median(R.s))
 SMid        == (l > 0 /\ R.k = "dur") =>
    LET ss == Sort(R.s) IN R.mid = Mid(ss[f + 1], ss[n - f])
+\* the slice is left sorted by offset (what slices.SortFunc does; not demanded)
+SSorted     == (l > 0 /\ R.k = "meas") => SortedByOff(R.postf) /\ SortedByOff(R.postm)
 =============================================================================
